@@ -1248,6 +1248,172 @@ void lookupIndexRun(uint64_t i, Ctx &ctx)
     else if (u.ann->issueCount() == 0) ctx.violation("C15:unexplained-failure:annotator:item(id,index):index-out-of-range:" + sit, lookupIndexShow(i));
 }
 
+// ------------------------------------------------------------------ family sharing: which imported entities share which ImportSource object
+// For ku imported units and kc imported components: EVERY set partition of the ku+kc importing entities (units in units order,
+// then components in component order) into ImportSource objects - so S1,S2,S1 / S1,S2,S2,S1 / units-component-units sharing -
+// x every subset of the sources carrying an id x {ids distinct, ids shared pairwise by different sources (true duplicates)} x
+// {no local entity, a local units and a local component listed between the imported ones} x 5 assign* calls on a fresh annotator.
+// Oracles unchanged: judgeAssign + judgeLookups against the traversal, which counts each ImportSource OBJECT once.
+struct SharePattern
+{
+    int ku, kc;
+    std::vector<int> block; // restricted growth string over the ku+kc entities
+    int blocks;
+    uint64_t first; // index of its first case
+};
+void growPartitions(int n, std::vector<int> &cur, int maxBlock, std::vector<std::vector<int>> &out)
+{
+    if (int(cur.size()) == n) { out.push_back(cur); return; }
+    for (int b = 0; b <= maxBlock + 1; ++b) {
+        cur.push_back(b);
+        growPartitions(n, cur, std::max(maxBlock, b), out);
+        cur.pop_back();
+    }
+}
+constexpr int SHARE_OPS = 5;
+const std::vector<SharePattern> &sharePatterns()
+{
+    static std::vector<SharePattern> pats;
+    if (pats.empty()) {
+        const char *t = getenv("VERIF_TIER");
+        bool thorough = t && std::string(t) == "thorough";
+        int maxU = thorough ? 4 : 3, maxC = thorough ? 3 : 2;
+        uint64_t at = 0;
+        for (int ku = 0; ku <= maxU; ++ku) for (int kc = 0; kc <= maxC; ++kc) {
+            if (ku + kc == 0) continue;
+            std::vector<std::vector<int>> parts;
+            std::vector<int> cur;
+            growPartitions(ku + kc, cur, -1, parts);
+            for (auto &b : parts) {
+                int k = *std::max_element(b.begin(), b.end()) + 1;
+                pats.push_back({ku, kc, b, k, at});
+                at += (uint64_t(1) << k) * 2 * 2 * SHARE_OPS;
+            }
+        }
+        pats.push_back({0, 0, {}, 0, at}); // sentinel
+    }
+    return pats;
+}
+uint64_t shareCount() { return sharePatterns().back().first; }
+struct ShareCase
+{
+    const SharePattern *p;
+    uint64_t idMask;
+    bool dupIds, local;
+    int op;
+};
+ShareCase shareDecode(uint64_t i)
+{
+    auto &pats = sharePatterns();
+    size_t lo = 0, hi = pats.size() - 1;
+    while (hi - lo > 1) { size_t mid = (lo + hi) / 2; if (pats[mid].first <= i) lo = mid; else hi = mid; }
+    ShareCase c;
+    c.p = &pats[lo];
+    Radix r(i - pats[lo].first);
+    c.op = int(r.take(SHARE_OPS));
+    c.local = r.take(2) == 1;
+    c.dupIds = r.take(2) == 1;
+    c.idMask = r.take(uint64_t(1) << pats[lo].blocks);
+    return c;
+}
+std::string shareSourceId(const ShareCase &c, int b)
+{
+    if (!((c.idMask >> b) & 1)) return "";
+    return "s" + std::to_string(c.dupIds ? (b / 2) * 2 : b); // dupIds: sources 0,1 share "s0", sources 2,3 share "s2", ...
+}
+static const char *SHARE_OP[] = {"assignIds(MODEL)", "assignAllIds()", "assignIds(IMPORT)", "assignId(import source of the first importing entity)", "assignAllIds(model)"};
+json shareShow(uint64_t i)
+{
+    ShareCase c = shareDecode(i);
+    json ents = json::array();
+    for (int e = 0; e < c.p->ku + c.p->kc; ++e) {
+        int b = c.p->block[size_t(e)];
+        ents.push_back((e < c.p->ku ? "units iu" + std::to_string(e) : "component ic" + std::to_string(e - c.p->ku)) + " <- S" + std::to_string(b) + (shareSourceId(c, b).empty() ? "" : "{id=" + shareSourceId(c, b) + "}"));
+    }
+    return {{"importing-entities-in-listing-order", ents}, {"local-units-and-component-listed-second", c.local}, {"call", SHARE_OP[c.op]}};
+}
+void shareRun(uint64_t i, Ctx &ctx)
+{
+    ShareCase c = shareDecode(i);
+    const SharePattern &p = *c.p;
+    Labels L;
+    auto m = Model::create("share");
+    L.add(m.get(), "m");
+    std::vector<ImportSourcePtr> src;
+    for (int b = 0; b < p.blocks; ++b) {
+        auto is = ImportSource::create();
+        is->setUrl("lib" + std::to_string(b) + ".cellml");
+        is->setId(shareSourceId(c, b));
+        L.add(is.get(), "S" + std::to_string(b));
+        src.push_back(is);
+    }
+    std::vector<UnitsPtr> keepU;
+    std::vector<ComponentPtr> keepC;
+    for (int e = 0; e < p.ku; ++e) {
+        auto u = Units::create("iu" + std::to_string(e));
+        u->setImportSource(src[size_t(p.block[size_t(e)])]);
+        u->setImportReference("lu");
+        L.add(u.get(), "U" + std::to_string(e));
+        m->addUnits(u);
+        keepU.push_back(u);
+        if (c.local && e == 0) {
+            auto lu = Units::create("local_units");
+            lu->addUnit("second");
+            L.add(lu.get(), "LU");
+            m->addUnits(lu);
+            keepU.push_back(lu);
+        }
+    }
+    for (int e = 0; e < p.kc; ++e) {
+        auto comp = Component::create("ic" + std::to_string(e));
+        comp->setImportSource(src[size_t(p.block[size_t(p.ku + e)])]);
+        comp->setImportReference("lc");
+        L.add(comp.get(), "C" + std::to_string(e));
+        m->addComponent(comp);
+        keepC.push_back(comp);
+        if (c.local && e == 0) {
+            auto lc = Component::create("local_component");
+            L.add(lc.get(), "LC");
+            m->addComponent(lc);
+            keepC.push_back(lc);
+        }
+    }
+    std::vector<Viol> out;
+    if (c.op == 0) judgePrinter(m, L, "sharing", out);
+    Snap pre = snapshot(m, L);
+    auto ann = Annotator::create();
+    if (c.op != 4) { ann->setModel(m); ctx.logger(ann, "annotator"); }
+    std::string sit = "fresh-annotator:import-sharing";
+    auto allKinds = [](CellmlElementType t) { return t != CellmlElementType::MATH && t != CellmlElementType::UNDEFINED; };
+    switch (c.op) {
+    case 0: (void)ann->assignIds(CellmlElementType::MODEL); judgeAssign({"assignIds(MODEL)", [](CellmlElementType k) { return k == CellmlElementType::MODEL; }, "", sit}, pre, snapshot(m, L), out); break;
+    case 1: (void)ann->assignAllIds(); judgeAssign({"assignAllIds()", allKinds, "", sit}, pre, snapshot(m, L), out); break;
+    case 2: (void)ann->assignIds(CellmlElementType::IMPORT); judgeAssign({"assignIds(IMPORT)", [](CellmlElementType k) { return k == CellmlElementType::IMPORT; }, "", sit}, pre, snapshot(m, L), out); break;
+    case 3: {
+        std::string id = ann->assignId(src[0]);
+        Snap post = snapshot(m, L);
+        judgeAssign({"assignId(IMPORT)", [](CellmlElementType) { return false; }, "import:S0", sit}, pre, post, out);
+        const Carrier *cr = post.find("import:S0");
+        if (id.empty()) out.push_back({"assign:assignId(IMPORT):refused-for-an-item-of-the-model:" + sit, {{"model", post.str()}}});
+        else if (cr && cr->id != id) out.push_back({"assign:assignId(IMPORT):returned-id-is-not-the-id-of-the-item:" + sit, {{"returned", id}, {"carried", cr->id}}});
+        break;
+    }
+    case 4: { ModelPtr mm = m; (void)ann->assignAllIds(mm); judgeAssign({"assignAllIds(model)", allKinds, "", sit}, pre, snapshot(m, L), out); break; }
+    }
+    ctx.logger(ann, "annotator");
+    judgeLookups(ann, m, L, true, sit, out);
+    ++ctx.judged;
+    int shared = 0, nonAdjacent = 0;
+    for (int b = 0; b < p.blocks; ++b) {
+        std::vector<int> members;
+        for (int e = 0; e < p.ku + p.kc; ++e) if (p.block[size_t(e)] == b) members.push_back(e);
+        if (members.size() > 1) ++shared;
+        for (size_t k = 1; k < members.size(); ++k) if (members[k] != members[k - 1] + 1) { ++nonAdjacent; break; }
+    }
+    ctx.outcome(std::string("sharing:") + (shared == 0 ? "no-source-shared" : nonAdjacent ? "shared-by-non-adjacent-entities" : "shared-by-adjacent-entities") + (c.idMask ? (c.dupIds ? ":ids-partly-equal" : ":ids-distinct") : ":no-ids") + ":" + std::vector<std::string>{"assignIds(MODEL)", "assignAllIds", "assignIds(IMPORT)", "assignId(source)", "assignAllIds(model)"}[size_t(c.op)] + (out.empty() ? ":held" : ":VIOLATED"));
+    for (auto &v : out) { json d = v.detail; d["case"] = shareShow(i); ctx.violation(v.sig, d); }
+}
+
 } // namespace
 
 int main(int argc, char **argv)
@@ -1263,6 +1429,7 @@ int main(int argc, char **argv)
     std::vector<Family> fs = {
         Family {"preids", preCount, preRun, preShow},
         Family {"lookupindex", lookupIndexCount, lookupIndexRun, lookupIndexShow},
+        Family {"sharing", shareCount, shareRun, shareShow},
         annFamily<AnnWorld<0, 0>>("annotator-full-noids", q2, t3),
         annFamily<AnnWorld<1, 0>>("annotator-full-mixedids", q2, t3),
         annFamily<AnnWorld<0, 1>>("annotator-core-noids", q3, t4),
